@@ -649,6 +649,24 @@ fn misuse_prelude(ty: &str, rng: &mut Rng) -> Option<(u64, Vec<Vec<u64>>)> {
     let shared = rng.below(2);
     let other = 1 - shared;
     match ty {
+        // Map: the reused dot vouches for two different nested members under the SAME key, the
+        // entry clocks are concurrent but the map clocks are ordered (a delivered update was
+        // removed before the misuse): the nested values must still be compared
+        "mapmv" | "mapor" | "mapmm" | "mapmo" if rng.below(3) == 0 => {
+            let k = shared;
+            let m0 = rng.below(3);
+            let (m1, m2) = ((m0 + 1) % 3, (m0 + 2) % 3);
+            Some((1, vec![
+                vec![K_EDIT, 2, k, 0, 1, m0, 0],             // Y (actor 2) adds under k            (op 0)
+                vec![K_DELIVER, rb, 1, 0],                   // X learns it
+                vec![K_EDIT, rb, k, 5],                      // X: rm k with the get() context       (op 1)
+                vec![K_MISUSE, rb, ra, k, 0, 1, m1, 0],      // X, as actor A, adds m1 under k       (op 2)
+                vec![K_EDIT, rb, k, 0, 1, m0, 0],            // X, as itself, adds under k           (op 3)
+                vec![K_MISUSE, 2, ra, k, 0, 1, m2, 0],       // Y, as actor A, adds m2 under k       (op 4)
+                vec![K_EXTRA, rb, 2],
+                vec![K_EXTRA, 2, rb],
+            ]))
+        }
         "orswot" | "mapmv" | "mapor" | "mapmm" | "mapmo" => Some((1, vec![
             // A edits the shared member/key as itself; B too (distinct actors: fine)
             vec![K_EDIT, ra, shared, 0, 1, shared, 0],
